@@ -17,7 +17,13 @@ int main(int argc, char** argv) {
   if (argc < 7) return 2;
   int lMax = std::atoi(argv[1]), N = std::atoi(argv[2]), order = std::atoi(argv[3]); double acc = std::strtod(argv[4], 0);
   initFactorials();
-  BesselFunction b(lMax, N, order, acc);
+  // other instances are alive while the one under test is built and used: one with the same table size but a much looser series
+  // cut-off and order, one re-initialised from loose to the tested parameters, one with other limits; an evaluator must depend on its
+  // own parameters only
+  BesselFunction other1(lMax, N, 30, 1e-6);
+  BesselFunction other2(lMax > 2 ? lMax - 2 : lMax + 1, N, order, acc);
+  BesselFunction b(lMax, N, 40, 1e-8); b.init(lMax, N, order, acc);
+  BesselFunction other3(lMax, N, 30, 1e-5);
   FILE* f = std::fopen(argv[6], "w");
   std::fprintf(f, "case table\nint lMax %d\nint N %d\nint order %d\nmat acc 1 1 %a\n", lMax, N, order, acc);
   std::fprintf(f, "mat K %d %d", N + 1, lMax + TAYLOR_CUT + 1);
